@@ -315,6 +315,9 @@ where
         }
     }
     let mut hit = false;
+    // connections whose establishment had been reported when their peer became restricted: they have to be closed, even if
+    // the restriction is lifted again right away
+    let mut doomed: Vec<(usize, libp2p_swarm::ConnectionId, PeerId)> = vec![];
     let nops = 30 + choose(70);
     for _ in 0..nops {
         if violated() {
@@ -342,6 +345,23 @@ where
                         if busy {
                             hit = true;
                             probe("restricted_peer_had_connection");
+                        }
+                        for (id, (q, _)) in nodes[a].model.borrow().established.iter() {
+                            if *q == peers[b] {
+                                doomed.push((a, *id, *q));
+                            }
+                        }
+                        if choose(4) == 0 {
+                            // change of mind before the Swarm was polled again
+                            let seq = next_seq();
+                            nodes[a].swarm.borrow_mut().behaviour_mut().lift(peers[b]);
+                            restricted[a].remove(&peers[b]);
+                            for w in windows.iter_mut() {
+                                if w.0 == a && w.1 == peers[b] && w.3.is_none() {
+                                    w.3 = Some(seq);
+                                }
+                            }
+                            probe("restricted_and_lifted_between_polls");
                         }
                     }
                     nodes[a].kick();
@@ -388,6 +408,9 @@ where
         if to.is_none() {
             ensure!(nodes[*i].model.borrow().count_peer(p) == 0, "C53/connection-survived", "n{i}: peer {p} is blocked / not allowed, the system is quiescent, but {} connection(s) to it are still established", nodes[*i].model.borrow().count_peer(p));
         }
+    }
+    for (i, id, p) in &doomed {
+        ensure!(nodes[*i].model.borrow().closed.contains_key(id), "C53/existing-connection-not-closed", "n{i}: connection {id} to {p} was established when {p} became blocked / disallowed, and it was never closed");
     }
     if hit {
         mark_nontrivial();
